@@ -744,6 +744,11 @@ def run(prog, ctx):
              "used by sign-equivariant or sign-even constructs, or after phase_sync on that array")
     ctx.rule("R09.2", "every re-keying of the block table reachable with pending signs re-keys the sign table with the same map")
     ctx.rule("R09.3", "phase_sync multiplies each -1 into its block and removes it on the same path; no other function consumes signs")
+    ctx.rule("R09.5", "bounded complement by abstract evaluation: every non-factorising operation gives the same observable result on an "
+             "array with pending signs and on its phase_sync()-ed twin")
+    from rules.sem_lazy import check_lazy_equivalence
+
+    check_lazy_equivalence(prog, ctx)
     for q, why in sorted(RAW_OK.items()):
         ctx.fact(f"{q}: {why}")
     for q, why in sorted(DECOMP_OK.items()):
